@@ -526,7 +526,46 @@ pub fn build(c: &FCase, openq: &Quirks) -> Built {
                 undef = e.undef_flags;
                 let outcome = e.outcome.clone();
                 rn.apply(e);
-                code.push(Item::Ins(insn.clone()));
+                // one plain instruction in five sits in a procedure of its own that is called twice, with the general
+                // registers (and, for memory operands, DS) changed in between: the very same line of code runs from two
+                // different machine states, so nothing that was derived from the first state may be used for the second
+                let twice = matches!(outcome, Outcome::Next) && insn.prefix.is_none() && !strings && !matches!(insn.mn, "popf" | "push" | "pop" | "pushf" | "hlt" | "call" | "ret" | "int") && b.vals[8] % 5 == 0 && r[4] >= 0x40 && r[4] <= 0xFFC0;
+                if twice {
+                    let pn = format!("v_{}", k);
+                    procs.push(Item::Proc { name: pn.clone(), body: vec![Item::Ins(insn.clone())] });
+                    code.push(Item::Ins(Insn::new("call", vec![Opd::Name(pn.clone())])));
+                    let mut second: Vec<Insn> = Vec::new();
+                    if insn.mem_operand().is_some() || insn.label_operand().is_some() {
+                        second.push(mov16(R16::AX, b.segs[0] ^ 0x0210));
+                        second.push(movsr(Seg::DS, R16::AX));
+                    }
+                    for (j, reg) in [R16::AX, R16::BX, R16::CX, R16::DX, R16::SI, R16::DI].iter().enumerate() {
+                        second.push(mov16(*reg, r[[0usize, 1, 2, 3, 6, 7][j]] ^ b.vals[j].rotate_left(3) ^ 0x0101));
+                    }
+                    let saved = (rn.mach.regs.clone(), rn.mach.mem.clone(), rn.mach.call_stack.clone());
+                    for i in &second {
+                        rn.run(i);
+                    }
+                    let (n2, e2) = rn.exec(&insn);
+                    if n2 == 1 && matches!(e2.outcome, Outcome::Next) {
+                        dc_regs |= e2.dc_regs;
+                        undef |= e2.undef_flags;
+                        rn.apply(e2);
+                        for i in second {
+                            code.push(Item::Ins(i));
+                        }
+                        code.push(Item::Ins(Insn::new("call", vec![Opd::Name(pn)])));
+                        classes.push("l3/same-line-run-twice-from-different-states".into());
+                        nontrivial = true;
+                    } else {
+                        // the second state would make the instruction ambiguous or fault: leave it at one execution
+                        rn.mach.regs = saved.0;
+                        rn.mach.mem = saved.1;
+                        rn.mach.call_stack = saved.2;
+                    }
+                } else {
+                    code.push(Item::Ins(insn.clone()));
+                }
                 classes.push(format!("l3/form/{}/{}", insn.mn, insn.form()));
                 if insn.prefix.is_some() {
                     classes.push("l3/rep-prefix".into());
